@@ -396,8 +396,8 @@ def table_directed(samples=50000):
     rows = [i for i in range(256) if src[i] != mdl[i]]
     out = []
     exe = os.path.join(C.TARGET, "release", BIN)
-    if rows and not os.path.exists(exe):
-        C.cargo_build([BIN])
+    if rows:
+        C.cargo_build([BIN])      # always: another property's check may call this with a stale c14 bin
     for i in rows[:8]:
         lo, hi = (256 + i) << 55, (257 + i) << 55
         rng = random.Random(1000 + i)
@@ -407,6 +407,53 @@ def table_directed(samples=50000):
         bad = [ln for ln, d, r in zip(lines, ds, res) if r != "Z:%x" % recip(d)]
         out += bad[:20] + lines[:200]
     return out
+
+
+def _r2_final(d):
+    """(p == d1, t0 < d0) at the last adjustment of reciprocal_2, or None when it is not reached"""
+    d1, d0 = d >> 64, d & M64
+    v = R.reciprocal(d1)
+    p = (d1 * v + d0) & M64
+    if p < d0:
+        v = (v - 1) & M64
+        if p >= d1:
+            v = (v - 1) & M64
+            p = (p - d1) & M64
+        p = (p - d1) & M64
+    t = v * d0
+    t1, t0 = t >> 64, t & M64
+    p = (p + t1) & M64
+    if p < t1:
+        return p == d1, t0 < d0
+    return None
+
+
+def r2_eq_cases(limit=60):
+    """Divisors for which the last adjustment of reciprocal_2 compares (p:t0) with d while p equals
+    the HIGH word of d, so that only the low words decide (probability 2^-64 under random d; a
+    comparison of the high words alone goes wrong exactly here).  d0 is solved for, not sampled."""
+    out = []
+    rng = random.Random(77)
+    d1s = [(1 << 63) + k for k in range(0, 400)] + [(1 << 63) + rng.getrandbits(58) for _ in range(300)]
+    for d1 in d1s:
+        v0 = R.reciprocal(d1)
+        found = set()
+        for vp in (v0, (v0 - 1) & M64, (v0 - 2) & M64):
+            for c in (0, 1, 2):
+                for k in range(4):
+                    num = (d1 - d1 * vp + c * d1 + k * B) % (4 * B)
+                    for kk in range(3):
+                        est = ((num + kk * B) * B) // (B + vp)
+                        for d0 in range(est - 3, est + 4):
+                            if 0 <= d0 <= M64:
+                                r = _r2_final((d1 << 64) | d0)
+                                if r and r[0]:
+                                    found.add(((d1 << 64) | d0, r[1]))
+        for d, low in sorted(found):
+            out.append("reciprocal_2 128 %s" % Z(d))
+        if len(out) >= limit:
+            break
+    return out[:limit]
 
 
 def corpus():
@@ -444,7 +491,7 @@ def corpus():
                         out.append(c_div(64 * ln, tl(N, ln), dv))
     out += D1_REGRESSIONS
     out += directed()
-    return out + extra
+    return out + extra + r2_eq_cases()
 
 
 def gen(rng, tier):
